@@ -416,7 +416,7 @@ def run(ctx, ck):
     # ---------------------------------------------------------------- D2
     for q, attrs in (('mininec.Mininec.compute_impedance_matrix', ['self.Z']),
                      ('mininec.Mininec.compute_near_field', ['self.e_field', 'self.h_field'])):
-        f = m.func(q)
+        f = ctx.flat(q)     # private helpers inlined
         fl = ctx.flow(f)
         for a in attrs:
             n_upd, bad, n_plain = first_touch_is_plain_assign(fl, a)
@@ -429,7 +429,7 @@ def run(ctx, ck):
                     ('mininec.Mininec.compute_far_field', 'self.far_field'),
                     ('mininec.Mininec.compute_near_field', 'self.near_field_coord'),
                     ('mininec.Mininec.compute', 'self.power')):
-        f = m.func(q)
+        f = ctx.flat(q)     # private helpers inlined: the result may be stored by one
         fl = ctx.flow(f)
         asg = assigns_to_attr(f, attr)
         ok = len(asg) >= 1
